@@ -453,6 +453,9 @@ func (f *Flow) runOne(fr *Frame, st0 string) []string {
 func (f *Flow) doCall(fr *Frame, st string, c ssa.CallInstruction, deferred bool) []string {
 	if f.Call != nil {
 		if handled, out := f.Call(fr, st, c, deferred); handled {
+			if out == nil {
+				return []string{st} // handled, state unchanged (an empty non-nil result means infeasible)
+			}
 			return out
 		}
 	}
